@@ -165,7 +165,7 @@ def tie_props():
 
 
 # further proof files whose theorems belong to a property (delta-form model -> C16; second cov file -> C19)
-EXTRA_FILES = {"C16": ["Forms"], "C19": ["C19b"], "C20": ["C20b"], "C17": ["C17b"]}
+EXTRA_FILES = {"C16": ["Forms"], "C19": ["C19b"], "C20": ["C20b", "C20c"], "C17": ["C17b"], "C08": ["C08b"], "C09": ["C09b"], "C18": ["C18b"]}
 
 # which Tie theorems (source-regenerated tables = model tables) serve which property
 TIE_MAP = {
